@@ -939,7 +939,8 @@ def write_rules(ctx, r1, r2):
                 z = cons_zone(o, terms=(n, ln, len_term(INP)))
                 if not z.entails("Eq", n, ln):
                     bad.append("returned count %s is not the length of the slice appended (%s)" % (short(n, 40), short(ln, 40)))
-                if not (isinstance(sv, tuple) and sv[0] == "slice" and sv[1] == INP and sv[2] == const(0)):
+                # (the whole input is its own longest prefix)
+                if not ((isinstance(sv, tuple) and sv[0] == "slice" and sv[1] == INP and sv[2] == const(0)) or sv == INP):
                     bad.append("the appended slice is %s, not a prefix of the input" % short(sv, 60))
                 if not z.entails("Le", n, len_term(INP)):
                     bad.append("returned count may exceed the input length")
